@@ -384,6 +384,58 @@ func ruleP4(c *Ctx, id string) {
 			continue
 		}
 		scanPolarity(c, id, spec, s, bound)
+		// a way out of the loop other than its bound test (a page limit) must be able to say "not at the end": the
+		// result takes the constant false somewhere
+		{
+			cont := bound.True
+			if cont == nil || !reachesBlock(cont, bound.Block) {
+				cont = bound.False
+			}
+			inLoop := func(b *ssa.BasicBlock) bool {
+				return b == bound.Block || (reachesBlock(cont, b) && reachesBlock(b, bound.Block))
+			}
+			limitExit := false
+			for _, b := range s.Blocks {
+				if b == bound.Block || !inLoop(b) {
+					continue
+				}
+				for _, sx := range b.Succs {
+					if !inLoop(sx) {
+						if _, isPanic := sx.Instrs[len(sx.Instrs)-1].(*ssa.Panic); !isPanic {
+							limitExit = true
+						}
+					}
+				}
+			}
+			if limitExit {
+				hasFalse := false
+				seenV := map[ssa.Value]bool{}
+				var walk func(v ssa.Value, d int)
+				walk = func(v ssa.Value, d int) {
+					if ph, isP := v.(*ssa.Phi); isP && d < 8 && !seenV[ph] {
+						seenV[ph] = true
+						for _, e := range ph.Edges {
+							walk(e, d+1)
+						}
+						return
+					}
+					if bv, isb := constBool(v); isb && !bv {
+						hasFalse = true
+					}
+					if _, isb := constBool(v); !isb {
+						if _, isP := v.(*ssa.Phi); !isP {
+							hasFalse = true // computed: judged by trueOnlyViaBound
+						}
+					}
+				}
+				for _, b := range s.Blocks {
+					if r, isR := b.Instrs[len(b.Instrs)-1].(*ssa.Return); isR && len(r.Results) == 1 {
+						walk(r.Results[0], 0)
+					}
+				}
+				R.Check(hasFalse, id, spec+"|a page limit can say 'more'", P.Pos(s.Pos()), "the loop has a way out besides its bound test, and the result can be false", "constant false among the result's sources", "the loop is left at a page limit, but the result is true whatever way it was left: a page that stops early reports end-of-directory - the client stops asking and never sees the remaining entries")
+			}
+		}
 		ok, why, n := trueOnlyViaBound(s, bound)
 		R.Check(ok && n > 0, id, spec+"|eof only at the end", P.Pos(s.Pos()), "the result is true only through the loop's bound test and the constant false at every limit exit", fmt.Sprintf("%d constant sources, true only via the bound test", n), why+": a page that ends before the last entry reports end-of-directory, the remaining entries are never returned")
 	}
@@ -880,4 +932,26 @@ func ruleP12(c *Ctx, id string) {
 			R.Undecided(id, spec+"|callback", P.Pos(s.Pos()), "the scanner calls the function it was handed", "no such call found")
 		}
 	}
+}
+
+// reachesBlock: b can be reached from a (a == b counts).
+func reachesBlock(a, b *ssa.BasicBlock) bool {
+	if a == nil || b == nil {
+		return false
+	}
+	seen := map[*ssa.BasicBlock]bool{}
+	work := []*ssa.BasicBlock{a}
+	for len(work) > 0 {
+		x := work[len(work)-1]
+		work = work[:len(work)-1]
+		if x == b {
+			return true
+		}
+		if seen[x] {
+			continue
+		}
+		seen[x] = true
+		work = append(work, x.Succs...)
+	}
+	return false
 }
